@@ -127,6 +127,8 @@ def evaluate(case) -> Verdict:
         v.key = ["include-disabled", case["via"], partial]
         v.labels.append("include-disabled")
         return v
+    if case["kind"] == "visible":
+        return eval_visible(case)
     mode = case["mode"]
     # R1: the partial's output does not depend on the caller's locals
     src1, parts = build(case, case["prelude1"])
@@ -159,6 +161,59 @@ def evaluate(case) -> Verdict:
     v.nontrivial = bool(reads & binds) or bool(assigns)
     v.labels.append("mode:" + mode)
     return v
+
+
+def eval_visible(case) -> Verdict:
+    """R4: a rendered partial does see its keyword arguments and its bound variable (and a macro its arguments)."""
+    v = Verdict()
+    mode, alias, args = case["mode"], case.get("alias"), case["args"]
+    reads = [alias or "p"] + [k for k, _ in args]
+    body = "[" + "|".join("{{ " + n + " }}" for n in reads) + "]"
+    kw = "".join(f", {k}: '{val}'" for k, val in args)
+    pre = "{% assign gw = 'GW' %}{% assign gl = 'L1,L2' | split: ',' %}" if case["source"] == "assign" else ""
+    as_ = f" as {alias}" if alias else ""
+    if mode == "render_with":
+        src, items = pre + "{% render 'p' with gw" + as_ + kw + " %}", ["GW"]
+    elif mode == "render_for":
+        src, items = pre + "{% render 'p' for gl" + as_ + kw + " %}", ["L1", "L2"]
+    elif mode == "render_kw":
+        src, items, reads = pre + "{% render 'p'" + kw + " %}", [None], [k for k, _ in args]
+        body = "[" + "|".join("{{ " + n + " }}" for n in reads) + "]"
+    elif mode == "macro":
+        reads = [k for k, _ in args]
+        body = "[" + "|".join("{{ " + n + " }}" for n in reads) + "]"
+        params = ", ".join(reads)
+        call = ", ".join(f"{k}: '{val}'" for k, val in args) if case.get("kwcall") else ", ".join(f"'{val}'" for _, val in args)
+        src, items = "{% macro m " + params + " %}" + body + "{% endmacro %}" + pre + "{% call m " + call + " %}", [None]
+    else:
+        raise core.HarnessError(mode)
+    want = "".join("[" + "|".join(([it] if it is not None else []) + [val for _, val in args]) + "]" for it in items)
+    env = envs.make_env({"mode": "strict", "extra": True, "twice": False}, {"p": body})
+    data = {} if case["source"] == "assign" else {"gw": "GW", "gl": ["L1", "L2"]}
+    data.update(case.get("globals") or {})
+    o = oc.outcome_of(lambda: env.from_string(src).render(**data))
+    if o[0] != "ok":
+        v.fail(f"visible:raises:{mode}", f"{src!r} p={body!r} data={data!r} -> {oc.short(o)!r:.150}")
+    elif o[1] != want:
+        what = "bound-variable" if (o[1].count("|") == want.count("|") and items[0] is not None and items[0] not in o[1]) else "arguments"
+        v.fail(f"visible:{what}-missing:{mode}", f"{src!r} with p={body!r} and render data {data!r}: expected {want!r}, observed {o[1]!r}")
+    v.nontrivial = True
+    v.labels.append("visible:" + mode)
+    return v
+
+
+def visible_cases():
+    for mode in ("render_with", "render_for", "render_kw", "macro"):
+        for alias in ("a", None):
+            if mode in ("render_kw", "macro") and alias:
+                continue
+            for args in ([], [["b", "B1"]], [["b", "B1"], ["c", "C1"]]):
+                if mode in ("render_kw", "macro") and not args:
+                    continue
+                for source in ("assign", "data"):
+                    for glob in ({}, {"z": 1}):
+                        for kwcall in ((False, True) if mode == "macro" else (False,)):
+                            yield {"kind": "visible", "mode": mode, "alias": alias, "args": args, "source": source, "globals": glob, "kwcall": kwcall}
 
 
 def _prelude(r) -> list:
@@ -231,6 +286,10 @@ def campaign(ctx: core.Ctx, tier: str, shard: int, nshards: int) -> None:
             idx += 1
             if idx % nshards == shard:
                 ctx.run({"kind": "include-disabled", "partial": partial, "via": via})
+    for case in visible_cases():
+        idx += 1
+        if idx % nshards == shard:
+            ctx.run(case)
     total = 3000 if tier == "quick" else 60000
     core.drive(cases(), ctx.run, n=max(1, total // nshards), seed=core.sub_seed(ctx.seed, shard))
 
@@ -246,8 +305,10 @@ def finish_kwargs(ctx: core.Ctx, tier: str) -> dict:
             "between the sentinels is identical for two different preludes (arguments and globals fixed). R2: the "
             "postlude output is identical when the body's assignments are removed. R3: include (directly, in a block, in a liquid tag, in a capture) "
             f"inside a partial reached through any of {len(VIAS)} call forms (plain, keyword arguments, with/for with and "
-            "without alias, inside a caller's loop, through a second render, macro bodies) raises DisabledTagError. Non-trivial = a prelude binds a name the body reads, or "
-            "the body assigns a name."
+            "without alias, inside a caller's loop, through a second render, macro bodies) raises DisabledTagError. R4 (all combinations): a partial rendered with keyword arguments and "
+            "'with x [as y]' / 'for xs [as y]' prints exactly those values, whether the bound expression is a caller "
+            "local or render data and whether or not any other render data exists; a macro prints its positional or "
+            "keyword arguments. Non-trivial = a prelude binds a name the body reads, or the body assigns a name."
         ),
         "assumptions": ["state a 'render ... for' partial carries from one item to the next is not asserted"],
     }
